@@ -677,8 +677,14 @@ func (w *c01World) subscribe() {
 			w.phase(4)
 			atomic.StoreInt32(&w.armDPF, 1) // the next DisabledPushFlags call is Client.Subscribe's
 		case "dpf":
-			w.emitL("LCommit")
-			stage = 4
+			// Client.Subscribe calls DisabledPushFlags right before it builds the subscribe
+			// push: after the commit as the code stands, before it with the push-first patch
+			if w.isSubscribed() {
+				w.emitL("LCommit")
+				stage = 4
+			} else {
+				stage = 5
+			}
 			w.phase(5)
 		case "done":
 			w.br.hook = nil
@@ -696,10 +702,15 @@ func (w *c01World) subscribe() {
 					if stage < 3 {
 						w.emitL("LMerge")
 					}
-					if stage < 4 {
+					if stage == 5 {
+						w.emitL("LSrvPush")
 						w.emitL("LCommit")
+					} else {
+						if stage < 4 {
+							w.emitL("LCommit")
+						}
+						w.emitL("LSrvPush")
 					}
-					w.emitL("LSrvPush")
 				}
 				w.emitL("LStopBuf")
 			} else {
